@@ -26,7 +26,7 @@ def bounds(tier):
 
 
 def lengths(tier):
-    base = list(range(0, 126)) + [126, 127, 128, 255, 256, 1000, 65535, 65536, 65537, 70000]
+    base = list(range(0, 126)) + [126, 127, 128, 255, 256, 1000, 32767, 32768, 40000, 65535, 65536, 65537, 70000]
     if tier == "thorough":
         base += [16383, 16384, 16385, 32768, 65534, 131072]
     return base
